@@ -1,6 +1,7 @@
 package main
 
 import (
+	"runtime/pprof"
 	"flag"
 	"fmt"
 	"os"
@@ -33,6 +34,16 @@ func main() {
 	verif := flag.String("verif", envOr("VERIF_DIR", "/verif"), "verif directory (evidence, known findings)")
 	list := flag.Bool("list", false, "list properties")
 	flag.Parse()
+	if pf := os.Getenv("CEDARCHECK_PROF"); pf != "" {
+		if f, err := os.Create(pf); err == nil {
+			_ = pprof.StartCPUProfile(f)
+			go func() {
+				time.Sleep(60 * time.Second)
+				pprof.StopCPUProfile()
+				os.Exit(3)
+			}()
+		}
+	}
 	if *list {
 		var ids []string
 		for id := range registry {
@@ -101,6 +112,7 @@ func main() {
 			exit = code
 		}
 	}
+	pprof.StopCPUProfile()
 	os.Exit(exit)
 }
 
